@@ -73,7 +73,9 @@ def _one(spec: str, cfgfile, traces: list, idx: list, workdir, tag: str, timeout
             if i in v.accepted:
                 continue
             old = v.rejected.get(i)
-            if old is None or l > old[0]:
+            # several branches (inferred reset draws) may die: keep the deepest one; among equally deep ones
+            # the one with the fewest failing clauses (a wrong guess additionally fails ObsIsCurrent & co.)
+            if old is None or l > old[0] or (l == old[0] and len(names) < len(old[1])):
                 v.rejected[i] = (l, sorted(names))
         undecided = [idx[remaining[t]] for t in range(len(remaining))
                      if idx[remaining[t]] not in v.accepted and idx[remaining[t]] not in v.rejected]
